@@ -2,6 +2,7 @@ package main
 
 import (
 	"fmt"
+	"reflect"
 	"strconv"
 	"strings"
 
@@ -363,4 +364,79 @@ func (g *gen) collidePrefixCommands(sd *StructDesc) bool {
 	}
 	walk(sd)
 	return done
+}
+
+// hideOnlyChild (C16): where a command has exactly one subcommand, that one is hidden
+func hideOnlyChild(sd *StructDesc) bool {
+	done := false
+	var walk func(s *StructDesc)
+	walk = func(s *StructDesc) {
+		cmds := commandFields(s)
+		if len(cmds) == 1 && !strings.Contains(cmds[0].Tag, "hidden:\"") {
+			cmds[0].Tag += " " + quoteTag("hidden", "1")
+			done = true
+		}
+		for _, f := range cmds {
+			walk(f.Sub)
+		}
+	}
+	walk(sd)
+	return done
+}
+
+// checkC19Exotic: field types outside the model's type universe (two or more levels of slice /
+// pointer), declared with and without a default tag, straight against the library (no model run):
+// a default on a boolean flag - however the flag reaches bool - is refused with ErrInvalidTag; the
+// same field without a default, and non-boolean fields with a default, are accepted.
+func checkC19Exotic(c *Ctx, n int) {
+	r := c.Rng
+	boolT := reflect.TypeOf(false)
+	strT := reflect.TypeOf("")
+	intT := reflect.TypeOf(0)
+	wrap := func(t reflect.Type, how string) reflect.Type {
+		for _, h := range how {
+			if h == 'L' {
+				t = reflect.SliceOf(t)
+			} else {
+				t = reflect.PtrTo(t)
+			}
+		}
+		return t
+	}
+	for i := 0; i < n; i++ {
+		how := []string{"", "L", "P", "PL", "LP", "PP", "LL", "PLP", "LPP"}[r.Intn(9)] // applied innermost first
+		base := []reflect.Type{boolT, boolT, strT, intT}[r.Intn(4)]
+		t := wrap(base, how)
+		withDefault := r.Intn(3) != 0
+		tag := `long:"flag" short:"f"`
+		if withDefault {
+			tag += ` default:"` + map[reflect.Type]string{boolT: "true", strT: "x", intT: "7"}[base] + `"`
+		}
+		st := reflect.StructOf([]reflect.StructField{{Name: "Flag", Type: t, Tag: reflect.StructTag(tag)}})
+		v := reflect.New(st)
+		var err error
+		pan := safe(func() {
+			p := flags.NewParser(v.Interface(), flags.None)
+			_, err = p.ParseArgs([]string{})
+		})
+		c.R.Evaluations++
+		desc := fmt.Sprintf("field of type %s, tag %s", t, tag)
+		c.Distinct("exotic|" + desc)
+		c.Class(fmt.Sprintf("c19/exotic bool=%v default=%v levels=%d", base == boolT, withDefault, len(how)))
+		in := map[string]interface{}{"declaration": desc}
+		got := "accepted"
+		if pan != nil {
+			got = fmt.Sprintf("panic: %v", pan)
+		} else if fe, ok := err.(*flags.Error); ok {
+			got = fmt.Sprintf("*flags.Error type %d: %s", fe.Type, fe.Message)
+		} else if err != nil {
+			got = "error: " + err.Error()
+		}
+		if base == boolT && withDefault {
+			fe, ok := err.(*flags.Error)
+			c.Check("default-on-a-boolean-flag-is-refused-whatever-the-indirection", pan == nil && ok && fe.Type == flags.ErrInvalidTag, "C19:exotic", in, got, "ErrInvalidTag")
+		} else {
+			c.Check("declaration-of-an-indirect-type-is-accepted", pan == nil && err == nil, "C19:exotic", in, got, "accepted")
+		}
+	}
 }
